@@ -764,8 +764,8 @@ fn injections(base: &Node) -> Vec<Injection> {
                     Node::Str(_) if last == "refresh_rate" => vec![("unknown duration unit", s("30 parsecs")), ("overflowing duration", s("99999999999999999999999 s")), ("list instead of string", Node::List(vec![Node::Int(1)]))],
                     Node::Str(_) => vec![("list instead of string", Node::List(vec![Node::Int(1)])), ("map instead of string", Node::Map(vec![("x".into(), Node::Int(1))]))],
                     Node::Bool(_) => vec![("string instead of bool", s("maybe")), ("number instead of bool", Node::Int(7))],
-                    // min_size is a 64-bit quantity: 2^32 is a legal value there
-                    Node::Int(_) if last == "min_size" => vec![("negative number", Node::Int(-1)), ("2^64", Node::Int(1 << 64)), ("string instead of number", s("many")), ("bool instead of number", Node::Bool(true))],
+                    // min_size and an integer limit are 64-bit quantities: 2^32 is a legal value there
+                    Node::Int(_) if last == "min_size" || last == "limit" => vec![("negative number", Node::Int(-1)), ("2^64", Node::Int(1 << 64)), ("string instead of number", s("many")), ("bool instead of number", Node::Bool(true))],
                     Node::Int(_) => vec![("negative number", Node::Int(-1)), ("2^32", Node::Int(1 << 32)), ("2^64", Node::Int(1 << 64)), ("string instead of number", s("many")), ("bool instead of number", Node::Bool(true))],
                     _ => vec![],
                 };
@@ -835,7 +835,13 @@ fn check_injection(lc: &Lc, inj_of: &dyn Fn(&str, &str) -> Option<Injection>, fm
     };
     // lossy loading kept going: every part that is not broken must behave as in the healthy configuration,
     // and the broken appender is either fully working (it was not really broken) or dropped entirely
-    let untouched = |files: &BTreeMap<&String, &String>| files.iter().all(|(_, v)| v.trim_end() == "previous run" || v.is_empty());
+    // "untouched" = exactly what the seeded directory shows before any logger exists (same normalisation), or empty
+    let seeded: BTreeMap<String, String> = {
+        let sb0 = Sandbox::new();
+        seed_files(lc, &sb0);
+        files(&snapshot(&sb0.dir)).into_iter().map(|(n, c)| (n.clone(), normalise(&n, &c, lc))).collect()
+    };
+    let untouched = |fl: &BTreeMap<&String, &String>| fl.iter().all(|(k, v)| v.is_empty() || seeded.get(*k) == Some(*v) || v.trim_end() == "previous run");
     let y_files: BTreeMap<&String, &String> = obs.files.iter().filter(|(k, _)| k.starts_with("y.")).collect();
     let y_healthy: BTreeMap<&String, &String> = healthy.files.iter().filter(|(k, _)| k.starts_with("y.")).collect();
     match inj.broken.as_deref() {
@@ -902,7 +908,12 @@ pub fn run(ctx: &Ctx) -> Report {
         rep.violation(sg, d, json!({"kind": "catalogue", "index": i, "config": lc_json(&cat[i])}));
     }
     // key orders on three representative configurations
-    let reps: Vec<&Lc> = [cat.len() / 5, cat.len() / 2, cat.len() - 3].iter().map(|i| &cat[*i]).collect();
+    // (thorough: 24 configurations spread over the catalogue)
+    let rep_idx: Vec<usize> = match ctx.tier {
+        Tier::Quick => vec![cat.len() / 5, cat.len() / 2, cat.len() - 3],
+        Tier::Thorough => (0..24).map(|k| (k * cat.len()) / 24 + (k * 7) % 11).filter(|i| *i < cat.len()).collect(),
+    };
+    let reps: Vec<&Lc> = rep_idx.iter().map(|i| &cat[*i]).collect();
     let mut n_orders = 0u64;
     for lc in &reps {
         let n = key_orders(&doc(lc, "R", "T")).len();
@@ -945,6 +956,20 @@ pub fn run(ctx: &Ctx) -> Report {
         .filter(|lc| lc.loggers[1].2 == Some(true))
         .cloned()
         .collect();
+    // thorough: additionally 16 further two-logger configurations of any appender kind, spread over the catalogue
+    let bases: Vec<Lc> = if ctx.tier == Tier::Thorough {
+        let extra: Vec<Lc> = cat.iter().filter(|lc| lc.loggers.len() == 2 && lc.refresh.is_some() && lc.loggers[1].2 == Some(true)).cloned().collect();
+        let step = (extra.len() / 16).max(1);
+        let mut b = bases;
+        for lc in extra.into_iter().step_by(step).take(16) {
+            if !b.iter().any(|x| lc_json(x) == lc_json(&lc)) {
+                b.push(lc);
+            }
+        }
+        b
+    } else {
+        bases
+    };
     let mut n_faults = 0u64;
     for lc in &bases {
         hooks::set_now(Some(super::rolling::clock_at(17)));
